@@ -1,0 +1,7 @@
+// Copyright 2026 The OWASP Coraza contributors
+// SPDX-License-Identifier: Apache-2.0
+
+// Package verifhooks re-exports a few internal entry points for an external
+// verification harness. Everything except this file is guarded by the
+// `verif` build tag; without the tag the package is empty.
+package verifhooks
